@@ -131,9 +131,10 @@ class Ctx:
                 names += [(t, False) for t in thms]
             else:
                 names += [(t, True) for t in thms]
-            for blk in re.finditer(r'Axioms:\n((?:.+\n?)+?)(?=\n\S|\Z)', out):
-                for m in re.finditer(r'^(\S+)\s*:', blk.group(1), re.M):
-                    axioms.add(m.group(1))
+            for m in re.finditer(r'^([A-Za-z_][\w.]*)\s*$|^([A-Za-z_][\w.]*) :', out, re.M):
+                name = m.group(1) or m.group(2)
+                if "." in name and name not in ("Axioms",):
+                    axioms.add(name)
         self.cov["theorems"] = [t for t, _ in names]
         self.cov["obligations"] = len(names)
         self.cov["discharged"] = sum(1 for _, d in names if d)
